@@ -187,6 +187,17 @@ fn e_owned_load_then_parse() {
 /// value of another type leaves the value untouched (still raw, same text), so it still
 /// serializes back to its source text verbatim. (Concrete raw texts: with a symbolic one the
 /// replaced-value path, whose drop glue does not fit, is explored syntactically.)
+/// none of the four probes below may decode the value at all: a decode here is already the
+/// violation (and the path is ended, because the replaced value's drop glue does not fit)
+fn cut_load_forbidden<'de, R: crate::reader::Reader<'de>>(
+    _p: &mut crate::parser::Parser<R>,
+    _strbuf: &mut Vec<u8>,
+) -> Result<OwnedLazyValue> {
+    assert!(false, "a mutable container probe decoded a value of another type");
+    kani::assume(false);
+    Ok(OwnedLazyValue(LazyPacked::Parsed(Parsed::Bool(true))))
+}
+
 fn mut_probe_body(raw: &'static [u8], want_array: bool) {
     let mut o = OwnedLazyValue::new(JsonSlice::Raw(raw), HasEsc::Possible);
     let hit = if want_array { o.as_array_mut().is_some() } else { o.as_object_mut().is_some() };
@@ -200,7 +211,7 @@ fn mut_probe_body(raw: &'static [u8], want_array: bool) {
 
 #[kani::proof]
 #[kani::unwind(6)]
-#[kani::stub(crate::parser::Parser::load_owned_lazyvalue, cut_load_owned_lazyvalue)]
+#[kani::stub(crate::parser::Parser::load_owned_lazyvalue, cut_load_forbidden)]
 #[kani::stub(crate::reader::Read::from, cut_read_from)]
 #[kani::stub(core::mem::drop, drop_cut)]
 fn u_owned_mut_probe_keeps_raw() {
@@ -208,6 +219,62 @@ fn u_owned_mut_probe_keeps_raw() {
     mut_probe_body(b"\"a\\/b\"", false);
     mut_probe_body(b"{}", true);
     mut_probe_body(b"[]", false);
+}
+
+/// C13/C01 U-owned-view: the shared views returned by `as_array()` / `as_object()` of a value
+/// that is still raw are usable -- `len()`, `is_empty()` and iteration go through `Deref`, which
+/// has to find the children that `as_array` only loaded into the cache (F8: it panicked with
+/// "must be a lazy array"). The one-level parser is cut to an empty container of the kind asked
+/// for; no second reader (INTERFERE_KIND = 0).
+static mut VIEW_KIND: u8 = 0;
+fn cut_load_empty_container<'de, R: crate::reader::Reader<'de>>(
+    _p: &mut crate::parser::Parser<R>,
+    _strbuf: &mut Vec<u8>,
+) -> Result<OwnedLazyValue> {
+    if unsafe { VIEW_KIND } == 0 {
+        Ok(OwnedLazyValue(LazyPacked::Parsed(Parsed::LazyArray(Vec::new()))))
+    } else {
+        Ok(OwnedLazyValue(LazyPacked::Parsed(Parsed::LazyObject(Vec::new()))))
+    }
+}
+
+fn view_body(kind: u8) {
+    use crate::JsonValueTrait;
+    unsafe {
+        INTERFERE_KIND = 0;
+        VIEW_KIND = kind;
+    }
+    if kind == 0 {
+        let o = OwnedLazyValue(LazyPacked::Raw(LazyRaw { raw: FastStr::from_static_str("[]"), parsed: AtomicPtr::new(std::ptr::null_mut()) }));
+        let v = o.as_array();
+        assert!(v.is_some(), "a raw array is an array");
+        assert!(v.unwrap().len() == 0);
+        core::mem::forget(o);
+    } else {
+        let o = OwnedLazyValue(LazyPacked::Raw(LazyRaw { raw: FastStr::from_static_str("{}"), parsed: AtomicPtr::new(std::ptr::null_mut()) }));
+        let v = o.as_object();
+        assert!(v.is_some(), "a raw object is an object");
+        assert!(v.unwrap().len() == 0);
+        core::mem::forget(o);
+    }
+}
+
+#[kani::proof]
+#[kani::unwind(2)]
+#[kani::stub(crate::parser::Parser::load_owned_lazyvalue, cut_load_empty_container)]
+#[kani::stub(crate::reader::Read::from, cut_read_from)]
+#[kani::stub(core::mem::drop, drop_cut)]
+fn u_owned_view_of_raw_array() {
+    view_body(0);
+}
+
+#[kani::proof]
+#[kani::unwind(2)]
+#[kani::stub(crate::parser::Parser::load_owned_lazyvalue, cut_load_empty_container)]
+#[kani::stub(crate::reader::Read::from, cut_read_from)]
+#[kani::stub(core::mem::drop, drop_cut)]
+fn u_owned_view_of_raw_object() {
+    view_body(1);
 }
 
 static mut ONLY_STEP: u8 = 0;
